@@ -170,7 +170,11 @@ CHECKS = [
         "geometry as an explicit parameter. Tie to /repo: ~5k-22k compiled-function decisions on exact rationals of doubles "
         "with a 1e-9 margin, purity/aliasing experiments, chunk grids end to end, _image_bounds positions, and end-to-end "
         "filtered = unfiltered sampling for boxes, TAN images and a pole probe. Not proved: that the continuous TAN "
-        "footprint's extreme is attained at a sampled position (assumption, as in the code's comment).",
+        "footprint's extreme is attained at a sampled position (assumption, as in the code's comment). Several images into one "
+        "TOAST pyramid (FitsTiler._tile_toast, Model/MultiToast.v): the cascade's filter is the union of the images' filters and "
+        "leaves no holes above any image (union_filter_leaves_no_holes), one common depth covering every image's guess "
+        "(multi_toast_common_depth); tied by recording the Builder calls of tile_fits on three images and replaying them on the "
+        "model's script in Coq.",
         "Trusted: the compiled _libtoasty.so validated bit-for-bit against the transpiled .pyx on every run; astropy WCS; "
         "float rounding by margin.",
         "machine-checked proof (Coq) + model/implementation correspondence by vm_compute and per-pixel comparison", "DESIGN.md section 5, C07"),
@@ -260,7 +264,9 @@ CHECKS = [
         "witnesses for 'returns normally' and 'blocks in put()'. All nine (stage x outcome) findings are reproduced on the "
         "implementation on every run and listed in known_findings.json; any other outcome class or stage, a serial-mode "
         "swallow, or a producer-side error (failing image load / tile filter during dispatch) that does not reach the caller "
-        "is reported as a violation.",
+        "is reported as a violation. How a requested worker count reaches the stages is modelled too (Model/ParUtil.v, "
+        "par_util.resolve_parallelism): a serial request is honoured in every environment (serial_request_is_honoured), "
+        "compared with the real function under patched start method / SLURM_NPROCS / CPU count.",
         "Trusted: as C03/C01. The repair (liveness/exit-status checks at five call sites plus queue teardown on failure) was "
         "judged not small and safe; see DESIGN.md section 9.1.",
         "machine-checked proof of the refutation (Coq LTS invariants for arbitrary raising sets + witnesses) + fault-injection correspondence under a deterministic scheduler",
